@@ -14,5 +14,25 @@ TEXT = {
         "level": "Sampled exploration with required branch coverage of the unknown-word rule (invoke/group/length/max_grouping_len/fallback/multi-category/astral); thorough compares the whole BMP character table.",
         "note": "With ignore_space the full comparison is restricted to dictionaries meeting C12's precondition. Astral characters with a range covering U+0000 are a listed known finding.",
     },
+    "C04": {
+        "technique": "runtime monitor: operation histories vs fresh-worker model; concurrent workers vs sequential results under ThreadSanitizer (and Miri many-seeds in thorough)",
+        "level": "Sampled exploration of histories (reset/tokenize x0-3/counter ops, few distinct sentences so reused buffers are exercised) and of thread interleavings (2-16 workers on one Tokenizer, seeded yields, overlap measured by tickets); TSan flags any data race, Miri (thorough) any UB/race on 8 schedules of a tiny dictionary.",
+        "note": "Interleavings are sampled, not enumerated; workers share no mutable state by construction, so the sanitizer layer is a tripwire for future unsafe/interior mutability.",
+    },
+    "C06": {
+        "technique": "runtime monitor: permutation algebra on real connectors (all id pairs) + before/after tokenization over operation histories; outcome classifier for malformed mappings",
+        "level": "Sampled exploration of dictionaries x permutation pairs x operation orders (map, map again, user lexicon before/after, write/read); all id pairs of each case are compared.",
+        "note": "Tokens are compared exactly only when the reference optimum is unique; otherwise by cost.",
+    },
+    "C08": {
+        "technique": "runtime monitor: observational equivalence between real dictionaries (history vs final lexicon alone vs extended system lexicon) on tokens and hooked candidate multisets; outcome classifier for invalid CSVs; ASan for the no-out-of-range-lookup clause",
+        "level": "Sampled exploration of user CSVs x load/replace/clear histories on mapped and unmapped dictionaries of all connector kinds.",
+        "note": "Equivalence with the extended system lexicon is judged on candidate multisets modulo lexicon type and on optimal cost (tie-breaking may differ).",
+    },
+    "C12": {
+        "technique": "runtime monitor: metamorphic relation over re-spaced variants + reference skip rule",
+        "level": "Sampled exploration of precondition-meeting dictionaries x sentences x 8 re-spacings each.",
+        "note": "Exact token equality is demanded only when the reference optimum is unique.",
+    },
 }
 NOT_APPLICABLE = []
